@@ -496,6 +496,7 @@ class Engine:
         self.reached, self.proved, self.violated = {}, {}, {}
         self.unknown, self.violations, self.unsupported, self.budget = [], [], [], []
         self.timeouts = []
+        self.unsup_paths = []
         self.inputs, self.uf_apps = {}, {}
         self.slow = []
         self.index_concretize_limit = index_concretize_limit
@@ -896,6 +897,14 @@ class Engine:
                 completed = True
             except Unsupported as e:
                 self.unsupported.append(str(e)[:120])
+                _alarm(0)
+                if len(self.unsup_paths) < 2:    # concolic fallback: inputs that drive the real code to the point the model cannot follow
+                    try:
+                        if self._check() == "sat":
+                            ins, ufs = self._model_inputs(self.solver.model())
+                            self.unsup_paths.append({"inputs": ins, "uf": ufs, "why": str(e)[:120]})
+                    except Exception:  # noqa: BLE001
+                        pass
             except Budget:
                 self.budget.append(len(self.decisions))
                 _alarm(0)
@@ -949,7 +958,7 @@ class Engine:
                     unsat=self.n_unsat, sat=self.n_sat, unknown_q=self.n_unknown_q,
                     solver_s=round(self.solver_time, 2), wall_s=round(self.wall, 2), reached=self.reached,
                     proved=self.proved, violated=self.violated, unknown=self.unknown[:20], violations=self.violations,
-                    unsupported=self.unsupported[:10], budget=self.budget[:10], timeouts=self.timeouts, pending=len(self.pending),
+                    unsupported=self.unsupported[:10], unsup_paths=self.unsup_paths, budget=self.budget[:10], timeouts=self.timeouts, pending=len(self.pending),
                     timed_out=self.timed_out, slow=self.slow[:5], witnesses=self.witnesses, samples=self.samples,
                     functions=sorted(self.functions))
 
